@@ -260,6 +260,18 @@ func pipelineValid(cc, code string) (ok bool, normalised string, pan any) {
 	return got, n, p2
 }
 
+// identityAsEntered normalises and validates one identity value (the country may
+// be rewritten by normalisation as well, e.g. GR to EL).
+func identityAsEntered(cc, code string) (ok bool, after string, pan any) {
+	pan, _ = Safely(func() {
+		id := &tax.Identity{Country: l10n.TaxCountryCode(cc), Code: cbc.Code(code)}
+		id.Normalize()
+		after = id.Country.String() + " " + id.Code.String()
+		ok = id.Validate() == nil
+	})
+	return
+}
+
 // frShortForms: French numbers may be entered as the bare 9-digit SIREN, which
 // normalisation completes with the VAT key when its own (Luhn) check digit
 // agrees; a SIREN with a wrong check digit must not become an accepted code.
@@ -388,6 +400,33 @@ func runC13(c *Ctx) {
 		}
 		if cc == "FR" {
 			k.frShortForms(rng, nValid/chunks/4+1)
+		}
+		// the regime's alternative country codes (XI and XU for GB, GR for EL) name
+		// the same national scheme: same verdict as under the main code
+		if reg := getWorld().defs.Regimes[cc]; reg != nil && part == 0 {
+			for _, alt := range reg.AltCodes {
+				for n := 0; n < 200; n++ {
+					code := sc.GenValid(rng)
+					cands := append([]string{code}, taxid.SingleDigitEdits(code)...)
+					cands = append(cands, sc.GenRandom(rng), "123456", "ABCDEFGHI")
+					for _, cd := range cands {
+						if oracleUnsure(cc, cd) != "" {
+							continue
+						}
+						// as entered: normalised first (GR is rewritten to EL there), then validated
+						g1, _, p1 := identityAsEntered(cc, cd)
+						g2, m2, p2 := identityAsEntered(alt, cd)
+						if p1 != nil || p2 != nil {
+							k.cnt("panics")
+							continue
+						}
+						k.cnt("alias_country_verdicts")
+						if g1 != g2 {
+							k.c.R.Fail(fmt.Sprintf("%s:alias-country:%s", cc, alt), fmt.Sprintf("code %q is valid=%v under country %s but valid=%v under its alternative code %s (normalised to %q)", cd, g1, cc, g2, alt, m2), map[string]any{"country": cc, "alias": alt, "code": cd})
+						}
+					}
+				}
+			}
 		}
 		for a, b := range k.local {
 			c.R.Count(a, b)
